@@ -48,6 +48,9 @@ STRENGTHENED = {
     'C44-2': 'missed at first (every generated handshake was accepted); a third of the generated handshakes are now built to be refused (index collision, older than the held tunnel, replayed packet).',
     'C04-2': 'missed at first (random high-S values almost never fall in the band (n/2, 2^255)); a boundary unit drives SignWith with callbacks returning chosen s values around n/2, every power of two, 2^255 and n.',
     'C02-2': 'missed at first; field tampers now include moving the boundary between the adjacent public-key and signature fields (same concatenation, different fields).',
+    'C49': 'missed at first (the lighthouse phases only covered frames arriving after the cancel); a family of stop points "stop while routines are already parked on the full query queue" was added (underlay made slow, parked state verified from the goroutine profile).',
+    'C34-2': 'missed at first (relays were almost never used because every pair had a direct path); one pair of peers is now reachable only through the relay.',
+    'C23-2': 'missed at first (no run ever reached the byte limit); byte-cap runs were added (a quiet flow whose run adds up to just below / at / above 65535 bytes, IPv4 and IPv6).',
     'C47': 'missed at first (short inputs were only presented as len==cap slices); short inputs at the front of a larger stale buffer were added.',
 }
 
